@@ -258,6 +258,118 @@ impl ControlConnectionEvents {
     }
 }
 
+/// Verification hook: the real [`ControlConnectionEvents::wait_for_event`] over channels the caller
+/// feeds by hand, one fresh call per `wait()` so that the caller can poll it and drop it (cancel it)
+/// at will, the way `MetadataWorker`'s `select!` loops do.
+#[cfg(scylla_verif)]
+pub mod events_verif {
+    use std::future::Future;
+    use std::net::{IpAddr, Ipv4Addr, SocketAddr};
+    use std::pin::Pin;
+
+    use tokio::sync::{mpsc, oneshot};
+
+    use super::{ControlConnectionEvent, ControlConnectionEvents, Event};
+    use crate::errors::{BrokenConnectionErrorKind, ConnectionError};
+    use crate::frame::response::event::{StatusChangeEvent, TopologyChangeEvent};
+
+    pub struct EventsFeeder {
+        events: mpsc::Sender<Event>,
+        error: Option<oneshot::Sender<ConnectionError>>,
+    }
+
+    pub struct EventsRig {
+        events: ControlConnectionEvents,
+    }
+
+    fn addr(n: u8) -> SocketAddr {
+        SocketAddr::new(IpAddr::V4(Ipv4Addr::new(127, 0, 0, n)), 9042)
+    }
+
+    fn label(event: ControlConnectionEvent) -> String {
+        match event {
+            ControlConnectionEvent::Broken(_) => "broken".to_owned(),
+            ControlConnectionEvent::Shutdown => "shutdown".to_owned(),
+            ControlConnectionEvent::ServerEvent(Event::StatusChange(StatusChangeEvent::Up(a))) => {
+                format!("up:{}", last_octet(a))
+            }
+            ControlConnectionEvent::ServerEvent(Event::StatusChange(StatusChangeEvent::Down(
+                a,
+            ))) => {
+                format!("down:{}", last_octet(a))
+            }
+            ControlConnectionEvent::ServerEvent(Event::TopologyChange(
+                TopologyChangeEvent::NewNode(a),
+            )) => format!("topo:{}", last_octet(a)),
+            ControlConnectionEvent::ServerEvent(_) => "other".to_owned(),
+        }
+    }
+
+    fn last_octet(a: SocketAddr) -> u8 {
+        match a.ip() {
+            IpAddr::V4(v4) => v4.octets()[3],
+            IpAddr::V6(_) => 0,
+        }
+    }
+
+    impl EventsRig {
+        /// An events channel of the given capacity (at least 1) and an error oneshot, exactly as
+        /// `ControlConnection::new` receives them.
+        pub fn new(capacity: usize) -> (EventsRig, EventsFeeder) {
+            let (events_tx, events_rx) = mpsc::channel(capacity.max(1));
+            let (error_tx, error_rx) = oneshot::channel();
+            (
+                EventsRig {
+                    events: ControlConnectionEvents {
+                        error_channel: error_rx,
+                        events_channel: events_rx,
+                    },
+                },
+                EventsFeeder {
+                    events: events_tx,
+                    error: Some(error_tx),
+                },
+            )
+        }
+
+        /// One fresh call of the real `wait_for_event()`.
+        pub fn wait(&mut self) -> Pin<Box<dyn Future<Output = String> + Send + '_>> {
+            Box::pin(async move { label(self.events.wait_for_event().await) })
+        }
+    }
+
+    impl EventsFeeder {
+        /// The connection's reader delivering one event (`try_send`): kind 0 = STATUS_CHANGE UP,
+        /// 1 = STATUS_CHANGE DOWN, 2 = TOPOLOGY_CHANGE NEW_NODE, of 127.0.0.`n`:9042.
+        /// `false`: channel full or receiver gone.
+        pub fn push(&mut self, kind: u8, n: u8) -> bool {
+            let event = match kind {
+                0 => Event::StatusChange(StatusChangeEvent::Up(addr(n))),
+                1 => Event::StatusChange(StatusChangeEvent::Down(addr(n))),
+                _ => Event::TopologyChange(TopologyChangeEvent::NewNode(addr(n))),
+            };
+            self.events.try_send(event).is_ok()
+        }
+
+        /// The connection reporting its failure on the error channel.
+        pub fn break_connection(&mut self) -> bool {
+            match self.error.take() {
+                Some(tx) => tx
+                    .send(ConnectionError::BrokenConnection(
+                        BrokenConnectionErrorKind::ChannelError.into(),
+                    ))
+                    .is_ok(),
+                None => false,
+            }
+        }
+
+        /// Drops the error sender without sending (the `Shutdown` outcome).
+        pub fn drop_error_sender(&mut self) {
+            self.error = None;
+        }
+    }
+}
+
 #[cfg(test)]
 mod tests {
     use std::collections::HashMap;
